@@ -634,14 +634,18 @@ static std::string op_chain(const toks_t& t)
       bool isidx = (c == "i");
       with_ptee(pt, [&](auto tg) {
         using T = typename decltype(tg)::type;
-        auto q = rlbox::sandbox_reinterpret_cast<T*>(p);
-        if (isidx) {
-          if constexpr (std::is_class_v<T>) q = rlbox::sandbox_reinterpret_cast<T*>(&(q[n].a));
-          else q = rlbox::sandbox_reinterpret_cast<T*>(&q[n]);
-        } else if (sub) q = q - n;
-        else if (o[1] == "2") q = n + q;      // number first
-        else q = q + n;
-        p = rlbox::sandbox_reinterpret_cast<char*>(q);
+        if constexpr (std::is_const_v<T>) {
+          throw std::runtime_error("HARNESS const pointee in a chain");    // (const pointees are driven by the arithmetic part only)
+        } else {
+          auto q = rlbox::sandbox_reinterpret_cast<T*>(p);
+          if (isidx) {
+            if constexpr (std::is_class_v<T>) q = rlbox::sandbox_reinterpret_cast<T*>(&(q[n].a));
+            else q = rlbox::sandbox_reinterpret_cast<T*>(&q[n]);
+          } else if (sub) q = q - n;
+          else if (o[1] == "2") q = n + q;      // number first
+          else q = q + n;
+          p = rlbox::sandbox_reinterpret_cast<char*>(q);
+        }
       });
     } else if (c == "f") {
       auto q = rlbox::sandbox_reinterpret_cast<PS*>(p);
